@@ -58,10 +58,33 @@ Plan == <<
   R("nfuncs",           MaxTable8,    1000, 1, Huge, "hash", TRUE, TRUE),
   R("fieldwrites",      MaxTable8,    1000, 1, Huge, "hash", TRUE, TRUE),
   R("fieldreads",       MaxTable8,    1000, 1, Huge, "hash", TRUE, TRUE),
-  R("selectcases",      65536,        1000, 1, 9973, "single", TRUE, FALSE),
+  R("selectcases",      65535,        1000, 1, 9973, "single", TRUE, FALSE),
   R("jumps",            MaxValues14,  1000, 1, 50,   "hash", FALSE, FALSE),
   R("tmplstringconsts", MaxTable8,    0,    1, Huge, "hash", TRUE, TRUE),
-  R("tmpltypes",        MaxTable8,    0,    1, Huge, "hash", TRUE, TRUE) >>
+  R("tmpltypes",        MaxTable8,    0,    1, Huge, "hash", TRUE, TRUE),
+  \* variants: the entries added LAST, around the limit, come from the allocation paths the builder
+  \* treats separately (nil, zero values of non-comparable types, composite zero values, function
+  \* values and literals, map-key selectors)
+  R("generalnil",       MaxTable8,    1000, 1, Huge, "hash", TRUE, TRUE),
+  R("generalzero",      MaxTable8,    1000, 1, Huge, "hash", TRUE, TRUE),
+  R("generalmix",       MaxTable8 + MaxTable8 \div 2, 1000, 1, Huge, "hash", TRUE, TRUE),
+  R("typesmix",         MaxTable8,    0,    1, Huge, "hash", TRUE, TRUE),
+  R("sfuncmix",         MaxTable8,    1000, 1, Huge, "hash", TRUE, TRUE),
+  R("nfuncvals",        MaxTable8,    1000, 1, Huge, "hash", TRUE, TRUE),
+  R("tmplstringsel",    MaxTable8,    1000, 1, Huge, "hash", TRUE, TRUE),
+  \* resources consumed by package-level initialisers (the synthetic $initvars function) of the main
+  \* package, of an imported package and of an imported template file
+  R("pkgvars_int",      MaxRegisters, 1000, 1, Huge, "hash", TRUE, TRUE),
+  R("pkgvars_float",    MaxRegisters, 1000, 1, Huge, "hash", TRUE, TRUE),
+  R("pkgvars_string",   MaxRegisters, 0,    1, Huge, "hash", TRUE, TRUE),
+  R("pkgvars_general",  MaxRegisters, 1000, 1, Huge, "hash", TRUE, TRUE),
+  R("pkginit_strings",  MaxTable8,    0,    1, Huge, "hash", TRUE, TRUE),
+  R("pkginit_general",  MaxTable8,    1000, 1, Huge, "hash", TRUE, TRUE),
+  R("pkginit_types",    MaxTable8,    0,    1, Huge, "hash", TRUE, TRUE),
+  R("libvars_string",   MaxRegisters, 0,    1, Huge, "hash", TRUE, TRUE),
+  R("libinit_general",  MaxTable8,    1000, 1, Huge, "hash", TRUE, TRUE),
+  R("tmplimpvars",      MaxRegisters, 0,    1, Huge, "hash", TRUE, TRUE) >>
+  \o (IF Deep THEN << R("pkginit_ints", MaxValues14 \div 2 + 64, 100000, 1, Huge, "hash", TRUE, FALSE) >> ELSE << >>)
 
 \* wide (small) resources: {1, cap/2} and cap-Span..cap+Span.  Large programs (not wide): cap/2 only
 \* when Deep.  Resources without a reachable limit (jumps): {1, cap/2}, Deep adds {cap, cap + cap/2}.
